@@ -8,7 +8,7 @@
 From Coq Require Import ZArith NArith List Bool String.
 Require Import Webob.Lib.Val Webob.Lib.PyStr Webob.Lib.C01_Str Webob.Model.MultiDict Webob.Model.C01_EnvView
                Webob.Spec.C01_View Webob.Proofs.C01_env Webob.Proofs.C01_inv Webob.Proofs.C01_coherent
-               Webob.Proofs.C01_names Webob.Proofs.C01_hdrkey Webob.Proofs.C01_instance.
+               Webob.Proofs.C01_names Webob.Proofs.C01_hdrkey Webob.Proofs.C01_listed Webob.Proofs.C01_instance.
 Import ListNotations.
 Local Open Scope list_scope.
 
@@ -164,6 +164,23 @@ Proof. exact header_key_roundtrip. Qed.
 Example C01_header_key_roundtrip_ex : trans_key (trans_name (lit "x-forwarded-for")) = Some (lit "X-Forwarded-For").
 Proof. exact header_key_roundtrip_ex. Qed.
 
+(* enumeration: the name request.headers lists for a header key leads back to exactly that key (the two meta-variables,
+   their HTTP_ look-alikes Content_Type / Content_Length, and HTTP_ + upper-case letters, digits, "_"), so reading or
+   deleting a listed name addresses the key it was listed for, and no name is listed for two keys *)
+Theorem C01_listed_key_roundtrip : forall k n,
+  header_cgi_key k -> trans_key k = Some n -> trans_name n = k.
+Proof. exact listed_key_roundtrip. Qed.
+
+Theorem C01_listed_names_unique : forall k1 k2 n,
+  header_cgi_key k1 -> header_cgi_key k2 -> trans_key k1 = Some n -> trans_key k2 = Some n -> k1 = k2.
+Proof. exact listed_names_unique. Qed.
+
+Example C01_listed_lookalikes :
+  trans_key (lit "HTTP_CONTENT_TYPE") = Some (lit "Content_Type") /\ trans_name (lit "Content_Type") = lit "HTTP_CONTENT_TYPE" /\
+  trans_key (lit "HTTP_CONTENT_LENGTH") = Some (lit "Content_Length") /\ trans_name (lit "Content_Length") = lit "HTTP_CONTENT_LENGTH" /\
+  trans_key (lit "CONTENT_TYPE") = Some (lit "Content-Type") /\ trans_name (lit "Content-Type") = lit "CONTENT_TYPE".
+Proof. exact listed_lookalikes. Qed.
+
 (* the faithful model of the PINNED request.py:1115-1140 refutes coherence (two histories, replayed on the
    implementation by the harness; repaired by fixes/C01-*.patch) *)
 Theorem C01_pinned_stale_after_update_refuted :
@@ -213,3 +230,5 @@ Print Assumptions C01_pinned_stale_after_update_refuted.
 Print Assumptions C01_pinned_assigned_object_refuted.
 Print Assumptions C01_copy_independent.
 Print Assumptions C01_copied_environ_reuses_object_refuted.
+Print Assumptions C01_listed_key_roundtrip.
+Print Assumptions C01_listed_names_unique.
